@@ -163,13 +163,13 @@ def oracle_case(cid, c, out):
         if cl == 0:
             continue
         ents = srclog.get(cl, [])
+        name = "c%d" % cl
         sp = [e[3] for e in ents]
         if len(set(pj)) != len(pj):
             fails.append("a source entry of c%d was applied more than once: %s" % (cl, pj))
         elif not is_subseq(pj, sp):
             fails.append("applied entries of c%d are not a subsequence of its source log: %s vs %s" % (cl, pj, sp))
         # recorded position = position of the last applied entry
-        name = "c%d" % cl
         if pj:
             last = [e for e in ents if e[3] == pj[-1]]
             got = prev_s.get(name)
@@ -179,13 +179,20 @@ def oracle_case(cid, c, out):
                 fails.append("synced position of %s is %s but the last applied entry is %s" % (name, prev_s.get(name), last[0][:3]))
         elif name in prev_s:
             fails.append("synced position recorded for %s although nothing of it was applied" % name)
-        if cls == "e2e":
+        if cls in ("e2e", "e2esnap"):
             # the REAL sender's delivery sequence must follow the source order: every delivered entry is a re-delivery
-            # of an already delivered one or exactly the next new one (the Follows hypothesis of the theorem)
+            # of an already covered one or exactly the next new one; an installed snapshot covers its prefix
+            # (the Follows hypothesis of the theorem)
             kk = 0
             pos = {e[1]: n_ for n_, e in enumerate(ents)}
-            for op in ops:
+            for op, res, sy, jl in per_op:
                 f = op.split(":")
+                if f[0] == "P" and int(f[1]) == cl:
+                    kpt = int(f[2])
+                    got = sy.get(name)
+                    if got is not None and got[2] == -1 and (got[0], got[1]) == ents[kpt - 1][:2]:
+                        kk = max(kk, kpt)        # the position is the snapshot's own: it has been installed
+                    continue
                 if f[0] != "B":
                     continue
                 for e in f[1:]:
@@ -202,7 +209,7 @@ def oracle_case(cid, c, out):
                         kk = j_ + 1
             if kk != len(ents):
                 fails.append("the sender never delivered the tail of c%d (%d of %d)" % (cl, kk, len(ents)))
-        if cls in ("ord", "e2e", "snap"):
+        if cls in ("ord", "e2e", "snap", "e2esnap"):
             sj, sn, sa = src[cl]
             if pj != [p for t, p in sj if t == cl] or n.get(cl, 0) != sn.get(cl, 0) or a.get(cl, "") != sa.get(cl, ""):
                 fails.append("data replayed from c%d differs from the source's data: %s / %s / %r  vs source %s / %s / %r"
@@ -324,7 +331,7 @@ def shrink_case(ctx, cid, c, first_failure=None, budget=120):
     return [c[0], c[1], c[2], " ".join(w + body + q)]
 
 
-def run_impl(ctx, seed, n, sub, replay_file=None, engines="mem", nb=0, ne=0, nm=0):
+def run_impl(ctx, seed, n, sub, replay_file=None, engines="mem", nb=0, ne=0, nm=0, nes=0):
     d = os.path.join(ctx.run_dir, sub)
     shutil.rmtree(d, ignore_errors=True)
     os.makedirs(d)
@@ -333,7 +340,7 @@ def run_impl(ctx, seed, n, sub, replay_file=None, engines="mem", nb=0, ne=0, nm=
     if replay_file:
         cmd = "%s -replay %s -out %s -port %d" % (binp, replay_file, d, port)
     else:
-        cmd = "%s -seed %d -n %d -nm %d -nb %d -ne %d -engines %s -out %s -port %d" % (binp, seed, n, nm, nb, ne, engines, d, port)
+        cmd = "%s -seed %d -n %d -nm %d -nb %d -ne %d -nes %d -engines %s -out %s -port %d" % (binp, seed, n, nm, nb, ne, nes, engines, d, port)
     rc, out, dt = sh(cmd, cwd=d, timeout=3000)
     if rc == 3:
         # the live server (child process) did not come up or died: time/port dependent, one retry
@@ -384,16 +391,16 @@ def run(ctx):
                             f.write(line if line.endswith("\n") else line + "\n")
             runs.append(dict(sub="corpus", replay=cf))
         if quick:
-            runs.append(dict(sub="fresh", n=330, nm=30, nb=6, ne=6, engines="mem"))
+            runs.append(dict(sub="fresh", n=330, nm=30, nb=6, ne=6, nes=1, engines="mem"))
         else:
-            runs.append(dict(sub="fresh", n=4300, nm=300, nb=120, ne=60, engines="mem,pebble,rocksdb"))
+            runs.append(dict(sub="fresh", n=4000, nm=300, nb=110, ne=50, nes=8, engines="mem,pebble,rocksdb"))
             runs.append(dict(sub="fresh-pebble-live", n=0, nb=30, ne=15, engines="pebble"))
 
     all_mism, all_fail, total, evals, hist_all, samples, distinct = [], [], 0, 0, {}, [], set()
     m0_fail = []
     for r in runs:
         d, err = run_impl(ctx, ctx.seed, r.get("n", 0), r["sub"], replay_file=r.get("replay"),
-                          engines=r.get("engines", "mem"), nb=r.get("nb", 0), ne=r.get("ne", 0), nm=r.get("nm", 0))
+                          engines=r.get("engines", "mem"), nb=r.get("nb", 0), ne=r.get("ne", 0), nm=r.get("nm", 0), nes=r.get("nes", 0))
         if d is None and err.startswith("INCONCLUSIVE") and r.get("nb", 0) > 0 and not r.get("replay"):
             ctx.notes.append("live server inconclusive twice (start/ports); live cases of run %s skipped" % r["sub"])
             if r.get("n", 0) == 0:
@@ -466,7 +473,10 @@ def run(ctx):
              "in a child process (real raft, WAL, snapshots every 5 entries), restart = SIGKILL + new process on the same directory. "
              "class e2e = the REAL sender (logSyncerSM + RemoteLogSender over gRPC) ships the source log to that server through a "
              "recording proxy that loses requests/responses, crashes the receiver and restarts the sender; the recorded calls are "
-             "the case (oracle additionally: the sender's deliveries follow the source order).",
+             "the case (oracle additionally: the sender's deliveries follow the source order). class e2esnap = the same with one "
+             "snapshot hand-over by the real logSyncerSM.PrepareSnapshot (backup lookup answered by a stand-in, NotifyTransferSnap / "
+             "status polling / NotifyApplySnap through the proxy, which also plays the file transfer or lets it fail once). "
+             "kind M = three bare replicas fed the same committed entries, replica 2 restarted.",
         histogram=hist_all,
         mismatches=len(all_mism),
         samples=samples[:4],
